@@ -61,6 +61,7 @@ pub fn trim_prefix<U: PathLike>(path: &PathBuf, prefix: U) -> (r: PathBuf)
 //@ item trim_suffix file=src/sys/fs/path.rs fn=trim_suffix props=C15,C12
 //@ sig pub fn trim_suffix<T: AsRef<Path>, U: AsRef<Path>>(path: T, suffix: U) -> PathBuf
 //@ rw R7 * re⟦PathBuf::from\(&base\[\.\.([^\]]+)\]\)⟧ => ⟦PathBuf::from_s(&base.slice_to(\1))⟧
+//@ rwall R7 re⟦PathBuf::from\(&(\w+)\[\.\.([^\]]+)\]\)⟧ => ⟦PathBuf::from_s(&\1.slice_to(\2))⟧
 //@ rw R4 * ⟦.chars().count()⟧ => ⟦.chars_count()⟧
 //@ ins start
     proof {
@@ -209,7 +210,7 @@ pub fn has(path: &PathBuf, val: &PathBuf) -> (r: bool)
     ensures (path.utf8_ok() && val.utf8_ok()) ==> r == (exists|i: int| 0 <= i && i + val.pstr().len() <= path.pstr().len() && #[trigger] path.pstr().subrange(i, i + val.pstr().len()) == val.pstr()),     //@ clause has.agrees_with_string_containment [C15]
             !(path.utf8_ok() && val.utf8_ok()) ==> !r,
 //@ body
-//@ item has_prefix file=src/sys/fs/path.rs fn=has_prefix props=C15,C17,C12
+//@ item has_prefix file=src/sys/fs/path.rs fn=has_prefix props=C15,C17,C12,C05
 pub fn has_prefix(path: &PathBuf, prefix: &PathBuf) -> (r: bool)
     ensures r == (path.utf8_ok() && prefix.utf8_ok() && is_prefix(prefix.pstr(), path.pstr())),     //@ clause has_prefix.agrees_with_string_prefix [C15]
 //@ body
@@ -360,6 +361,7 @@ impl OsText {
     pub uninterp spec fn utf8(&self) -> bool;
     #[verifier::external_body] pub fn to_string(&self) -> (r: RvResult<Str>) ensures r is Ok == self.utf8(), r is Ok ==> r->Ok_0@ == self@ { unimplemented!() }
     #[verifier::external_body] pub fn is_empty(&self) -> (b: bool) ensures b == (self@.len() == 0) { unimplemented!() }
+    #[verifier::external_body] pub fn len(&self) -> (n: usize) ensures n == byte_len(self@) { unimplemented!() }
 }
 impl PathBuf {
     #[verifier::external_body]
